@@ -2613,12 +2613,16 @@ void Validator::ValidatorImpl::checkUniqueResetOrders(const ModelPtr &model)
 
 void Validator::ValidatorImpl::addResetOrderMapItem(const VariablePtr &variable, int order, ResetOrderMap &resetOrderMap)
 {
+    // Look for an existing entry among all the variables of the connected
+    // variable set (the variable itself comes first), not only among the
+    // variables that are directly equivalent to it.
+    auto connectedVariables = equivalentVariables(variable);
     auto currentVariable = variable;
-    bool existingVariableFound = resetOrderMap.count(currentVariable) > 0;
+    bool existingVariableFound = false;
     size_t i = 0;
 
-    while ((i < variable->equivalentVariableCount()) && !existingVariableFound) {
-        currentVariable = variable->equivalentVariable(i);
+    while ((i < connectedVariables.size()) && !existingVariableFound) {
+        currentVariable = connectedVariables.at(i);
         existingVariableFound = resetOrderMap.count(currentVariable) > 0;
         ++i;
     }
